@@ -7,7 +7,12 @@
      Awaiting --first error answer--> Errored --first lookup reports it--> Gone        (destinations keep reporting it)
 
    - an accepted add returns an id larger than every id seen before and writes exactly the one command of its
-     kind carrying the caller's arguments, the client id and that id; a rejected add writes nothing;
+     kind carrying the caller's arguments, the client id and that id; a rejected add writes nothing, and an add is only
+     rejected for a reason: IllegalArgument only for illegal arguments (a counter key / label over its limit, a command that
+     does not fit the 512-byte command buffer - one that fits exactly is legal), IllegalState only while the ring is full,
+     Closed only once the client is closed;
+   - calling the public close() of a publication handle writes nothing and leaves the registration alone: the later drop
+     still writes its one Remove command;
    - a lookup answers NotReady (destinations: false) while Awaiting within the driver time-out, NoResponse after it;
      after the first matching ready answer it yields a handle, the same one on every lookup while it is held; after
      an error answer it reports the driver's code once; lookups never write commands;
@@ -17,6 +22,10 @@
    - the first close writes exactly one ClientClose, a later one nothing;
    - while the driver does not read its command ring and the ring is full (SetRingFull, an input of the history) a drop
      and a close write nothing; a dropped subscription is released locally all the same;
+   - a channel endpoint error (error code 4: the id it carries is a channel status indicator id, compared as i32) ends every
+     registration whose handle exists and sits on that channel status indicator - a subscription from its ready answer on,
+     a publication / exclusive publication from its first lookup on: later lookups report it unknown (NotFound) and
+     dropping the (closed) handle writes no command; every other registration is untouched;
    - every command carries the client id and a correlation id larger than all before.
    Where the statement is silent (an error answer after a ready answer, two different error answers) the
    registration becomes `LAny` and is not judged any more. Panic / Hang of a duty cycle or of close is judged by
@@ -56,6 +65,20 @@ Definition err_tr (code : Z) (x : life) : life :=
   match x with LAwait _ _ _ => LErr code | LReady _ _ _ _ => LAny | LErr _ => LAny | y => y end.
 Definition rerror (r code : Z) (l : list (kind * Z * life)) : list (kind * Z * life) :=
   map (fun p => if snd (fst p) =? r then (fst p, err_tr code (snd p)) else p) l.
+
+(* a channel endpoint error for the channel status indicator id x *)
+Definition chan_tr (k : kind) (x : Z) (l : life) : life :=
+  match l with
+  | LReady h d1 d2 d3 =>
+      match k with
+      | KSub => if d1 =? wrap32 x then LGone else l
+      | KPub | KXPub => match h with Some _ => if d2 =? wrap32 x then LGone else l | None => l end
+      | _ => l
+      end
+  | _ => l
+  end.
+Definition rchan (x : Z) (l : list (kind * Z * life)) : list (kind * Z * life) :=
+  map (fun p => (fst p, chan_tr (fst (fst p)) x (snd p))) l.
 
 Definition list_eqb (a b : list Z) : bool :=
   (Z.of_nat (length a) =? Z.of_nat (length b)) && forallb (fun p => fst p =? snd p) (combine a b).
@@ -104,6 +127,7 @@ Definition ready_step (ev : event) (q : ost) : list (kind * Z * life) * option c
   | EvCounterReady corr cid => tr KCtr corr cid 0 0 (fun _ _ => None)
   | EvOpSuccess corr => tr KDest corr 0 0 0 (fun _ _ => None)
   | EvError corr code => (rerror corr code (q_regs q), None)
+  | EvChanError x => (rchan x (q_regs q), None)
   | _ => (q_regs q, None)
   end.
 
@@ -119,7 +143,18 @@ Definition c09_step (c0 tdrv : Z) (full : bool) (q : ost) (o : op) (x : out) : v
              match cmds with [c] => cmd_eqb c (Cmd (add_cmd_type k a1) c0 id (add_cmd_args k a1 a2 a3)) | _ => false end
           then Next (set_qmax id (set_regs (q_regs q ++ [(k, id, LAwait (q_now q) a1 a2)]) q))
           else Bad
-      | Err _ => match cmds with [] => Next q | _ => Bad end
+      | Err e =>
+          match cmds with
+          | [] =>
+              if match e with
+                 | IllegalArg => add_illegal k a1 a2 a3
+                 | IllegalState => full
+                 | Closed => q_closed q
+                 | _ => true
+                 end
+              then Next q else Bad
+          | _ => Bad
+          end
       | _ => Bad
       end
   | Find k r' =>
@@ -206,6 +241,8 @@ Definition c09_step (c0 tdrv : Z) (full : bool) (q : ost) (o : op) (x : out) : v
       end
   | Tick d => Next (mkO (q_now q + d) (q_closed q) (q_regs q) (q_max q) (q_hmax q) (q_close_sent q))
   | SetDriverHb _ | SetHbCounter _ | SetRingFull _ => Next q
+  | CloseHandle _ _ =>
+      match r with Panic | Hang | Crash => Bad | _ => match cmds, cbs with [], [] => Next q | _, _ => Bad end end
   | DoWork b =>
       match r with
       | Panic | Hang | Crash => Stop
